@@ -142,6 +142,13 @@ class VLoop(asyncio.SelectorEventLoop):
         self.callback_errors.append("%s: %r" % (context.get("message"), context.get("exception")))
 
     async def create_datagram_endpoint(self, protocol_factory, local_addr=None, remote_addr=None, **kw):
+        if kw.get("sock") is not None:
+            # an implementation may create (and bind) its socket itself; the scripted endpoint replaces it
+            try:
+                local_addr = local_addr or kw["sock"].getsockname()
+                kw["sock"].close()
+            except OSError:
+                pass
         protocol = protocol_factory()
         tr = FakeDatagramTransport(self, protocol, remote_addr, local_addr, None)
         self.transports.append(tr)
